@@ -145,6 +145,134 @@ func mutate(fset *token.FileSet, f *ast.File, op string, n int, rel string) (sit
 				}
 				return true
 			})
+		// ---- behaviour-preserving operators (VERIF_SWEEP_OPS=flipif,swapcmp,demorgan,notnot,elsefall): every variant
+		// is semantically identical to the original, so a *flagged* variant is a false alarm of the rules
+		case "flipif":
+			// if c { A } else { B }  ->  if !c { B } else { A }
+			ast.Inspect(fd.Body, func(nd ast.Node) bool {
+				if is, ok := nd.(*ast.IfStmt); ok && is.Else != nil {
+					if eb, isBlock := is.Else.(*ast.BlockStmt); isBlock {
+						if hit(pos(is.If)+": if/else flipped", fname) {
+							is.Cond = &ast.UnaryExpr{Op: token.NOT, X: &ast.ParenExpr{X: is.Cond}}
+							is.Body, is.Else = eb, is.Body
+							applied = true
+						}
+					}
+				}
+				return true
+			})
+		case "swapcmp":
+			// a == b -> b == a ; a < b -> b > a ; ...
+			ast.Inspect(fd.Body, func(nd ast.Node) bool {
+				if be, ok := nd.(*ast.BinaryExpr); ok {
+					var to token.Token
+					switch be.Op {
+					case token.EQL, token.NEQ:
+						to = be.Op
+					case token.LSS:
+						to = token.GTR
+					case token.GTR:
+						to = token.LSS
+					case token.LEQ:
+						to = token.GEQ
+					case token.GEQ:
+						to = token.LEQ
+					default:
+						return true
+					}
+					// operands without calls: evaluation order of side effects must not change
+					pure := true
+					ast.Inspect(be, func(x ast.Node) bool {
+						switch x.(type) {
+						case *ast.CallExpr, *ast.UnaryExpr:
+							if u, isU := x.(*ast.UnaryExpr); !isU || u.Op == token.ARROW {
+								pure = false
+							}
+						}
+						return true
+					})
+					if !pure {
+						return true
+					}
+					if hit(fmt.Sprintf("%s: operands of %s exchanged", pos(be.OpPos), be.Op), fname) {
+						be.X, be.Y = be.Y, be.X
+						be.Op = to
+						applied = true
+					}
+				}
+				return true
+			})
+		case "demorgan":
+			// a && b -> !(!a || !b) ; a || b -> !(!a && !b)   (short-circuit order is kept)
+			ast.Inspect(fd.Body, func(nd ast.Node) bool {
+				is, ok := nd.(*ast.IfStmt)
+				if !ok {
+					return true
+				}
+				if be, isB := is.Cond.(*ast.BinaryExpr); isB && (be.Op == token.LAND || be.Op == token.LOR) {
+					if hit(fmt.Sprintf("%s: De Morgan on %s", pos(be.OpPos), be.Op), fname) {
+						op := token.LOR
+						if be.Op == token.LOR {
+							op = token.LAND
+						}
+						neg := func(e ast.Expr) ast.Expr { return &ast.UnaryExpr{Op: token.NOT, X: &ast.ParenExpr{X: e}} }
+						is.Cond = neg(&ast.BinaryExpr{X: neg(be.X), Op: op, Y: neg(be.Y)})
+						applied = true
+					}
+				}
+				return true
+			})
+		case "notnot":
+			ast.Inspect(fd.Body, func(nd ast.Node) bool {
+				if is, ok := nd.(*ast.IfStmt); ok {
+					if hit(pos(is.If)+": condition doubly negated", fname) {
+						is.Cond = &ast.UnaryExpr{Op: token.NOT, X: &ast.ParenExpr{X: &ast.UnaryExpr{Op: token.NOT, X: &ast.ParenExpr{X: is.Cond}}}}
+						applied = true
+					}
+				}
+				return true
+			})
+		case "elsefall":
+			// if c { A; return/continue/break } ; B   ->   if c { A; return } else { B }   (B = the rest of the block)
+			ast.Inspect(fd.Body, func(nd ast.Node) bool {
+				blk, ok := nd.(*ast.BlockStmt)
+				if !ok {
+					return true
+				}
+				for i, st := range blk.List {
+					is, isIf := st.(*ast.IfStmt)
+					if !isIf || is.Else != nil || len(is.Body.List) == 0 || i+1 >= len(blk.List) {
+						continue
+					}
+					switch last := is.Body.List[len(is.Body.List)-1].(type) {
+					case *ast.ReturnStmt:
+					case *ast.BranchStmt:
+						if last.Tok != token.CONTINUE && last.Tok != token.BREAK || last.Label != nil {
+							continue
+						}
+					default:
+						continue
+					}
+					// declarations in the rest would change scope only inside the new block: fine; labels are not moved
+					hasLabel := false
+					for _, r := range blk.List[i+1:] {
+						if _, isL := r.(*ast.LabeledStmt); isL {
+							hasLabel = true
+						}
+					}
+					if hasLabel {
+						continue
+					}
+					if hit(pos(is.If)+": rest of the block moved into else", fname) {
+						rest := append([]ast.Stmt{}, blk.List[i+1:]...)
+						is.Else = &ast.BlockStmt{List: rest}
+						blk.List = blk.List[:i+1]
+						applied = true
+						return false
+					}
+				}
+				return true
+			})
 		case "wrongvar":
 			// an operand replaced by another variable of the function (parameters and locals, in order of first
 			// appearance: the next and the previous one are tried; the type checker discards what does not fit)
@@ -532,7 +660,7 @@ func sweep(id, vd string, limit int, relevant map[string]bool) map[string]any {
 		if r.Outcome == "survived" {
 			survivors = append(survivors, fmt.Sprintf("%s [%s in %s]", r.Site.Desc, r.Site.Op, r.Site.Func))
 		}
-		if r.Outcome == "flagged" && len(sample) < 12 {
+		if r.Outcome == "flagged" && (len(sample) < 12 || os.Getenv("VERIF_SWEEP_OPS") != "") {
 			sample = append(sample, fmt.Sprintf("%s [%s in %s] -> %s", r.Site.Desc, r.Site.Op, r.Site.Func, strings.Join(r.Rules, ",")))
 		}
 	}
